@@ -58,8 +58,11 @@ ASSUMPTIONS = [
     "what an endpoint's getData() returned is the truth about 'message' vs 'no data' (also on UDP: a late "
     "datagram is simply a later message), so nothing depends on timing; the 20 ms UDP time-out only produces "
     "'no data' on an empty socket",
-    "hub.getData(name) performs exactly one receive on the named endpoint; which endpoints spin() polls is "
-    "observed, not demanded (the property text only fixes the source half of spin)",
+    "hub.getData(name) receives on the named endpoint only and at most once, and (doubles) does receive a message "
+    "that is waiting on an open endpoint; which endpoints spin() polls is observed, not demanded (the property "
+    "text only fixes the source half of spin)",
+    "hub.getData returns None when the receive yielded no data; its return value for a message is not checked "
+    "(the docstring promises (data, success), the code returns data)",
     "an empty string is a message (only None means 'no data')",
     "UDPObject.closeCom (shutdown on an unconnected datagram socket -> ENOTCONN on Linux) is outside this "
     "property: UDP endpoints are never closed through the library, sockets are closed directly at teardown",
@@ -212,6 +215,8 @@ NT_MASK = F_NODATA_RULED | F_CHURN_RX
 class DoubleRig:
     """Endpoints are in-memory doubles; everything is synchronous and owned by the harness."""
 
+    synchronous = True      # a fed message is there when the hub polls
+
     def __init__(self):
         self.eps = {}
 
@@ -248,6 +253,7 @@ class UdpRig:
     payload at its own peer, and nothing else may arrive anywhere."""
 
     TIMEOUT = 0.02
+    synchronous = False     # what the endpoint's getData() returned is the truth, whatever was injected
 
     def __init__(self, ctx):
         self.ctx = ctx
@@ -548,23 +554,23 @@ def execute(n_ep, opens, ops, rig):
                     flags |= F_DUP
             elif kind == "recv":
                 a = op[1]
+                fed = None
                 if a in eps:
                     msg_count += 1
-                    rig.feed(a, _payload(op[2], msg_count))
-                r = sut(hub.getData, a)
-                rx = [e for e in log if e[0] == "rx"]
-                if a in eps:
-                    if len(rx) != 1 or rx[0][1] != a:
-                        raise Violation("op %d %r: getData(%r) must receive once on %r; receives seen: %s" % (
-                            idx, op, a, a, rx))
-                    if rx[0][2] is None and r is not None:
-                        raise Violation("op %d %r: the receive yielded no data but getData returned %r" % (idx, op, r))
+                    fed = _payload(op[2], msg_count)
+                    rig.feed(a, fed)
                 else:
                     flags |= F_UNKNOWN
-                    if rx:
-                        raise Violation("op %d %r: getData on an unknown name received on %s" % (idx, op, rx))
-                    if r is not None:
-                        raise Violation("op %d %r: getData on an unknown name returned %r" % (idx, op, r))
+                r = sut(hub.getData, a)
+                rx = [e for e in log if e[0] == "rx"]
+                if len(rx) > 1 or any(e[1] != a for e in rx):
+                    raise Violation("op %d %r: getData(%r) may receive on %r only, and once; receives seen: %s" % (
+                        idx, op, a, a, rx))
+                if rig.synchronous and fed is not None and model.open[a] and not rx:
+                    raise Violation("op %d %r: message %r was waiting on the open endpoint %r but getData(%r) did "
+                                    "not receive it" % (idx, op, fed, a, a))
+                if (not rx or rx[0][2] is None) and r is not None:
+                    raise Violation("op %d %r: the receive yielded no data but getData returned %r" % (idx, op, r))
             elif kind == "spin":
                 spin_k = op[1]
                 if spin_k < 0:
@@ -781,19 +787,75 @@ def _graph():
     return _GRAPH["pairs"]
 
 
+def probe_ops(n_ep):
+    """Operations that make the whole rule table observable: a message on every endpoint, then one spin
+    with a message waiting everywhere.  Appended after the operation of interest so that an operation
+    whose *return value* is right but which left the hub in the wrong state is seen as well."""
+    names = EP_NAMES[:n_ep]
+    return [["recv", n, "msg"] for n in names] + [["spin", 1, [["msg"] * n_ep]]]
+
+
 def _graph_case(i, tier=None):
     p, d = _graph()[i]
-    return {"n_ep": 2, "open": [True, True], "ops": [ALPHABET[x] for x in p] + [ALPHABET[d]]}
+    return {"n_ep": 2, "open": [True, True], "ops": [ALPHABET[x] for x in p] + [ALPHABET[d]] + probe_ops(2)}
 
 
 def c_state_graph(case, ctx):
     c_history(case, ctx)
-    ctx.label("path length %d" % (len(case["ops"]) - 1))
+    ctx.label("path length %d" % (len(case["ops"]) - 1 - len(probe_ops(2))))
 
 
 # ------------------------------------------------------------------------------------------
 # clause (c): random histories to depth 60, 1..4 endpoints, fault drawn at every receive position
 # ------------------------------------------------------------------------------------------
+
+_MODES = ("msg", "msg", "msg", "none", "none", "empty")
+_HANDLES = (0, 1, 2) * 4 + (None,)
+_KINDS = (("recvruled",) * 5 + ("fwd",) * 5 + ("delrule",) * 3 + ("sink",) * 3 + ("recv",) * 3 + ("src",) * 2 +
+          ("spin",) * 2 + ("del", "send", "open"))
+_KINDS_DOUBLES = _KINDS + ("close", "openall", "closeall")
+_OP_BITS = 41           # enough for the widest op (spin with 3 x 4 feed entries)
+
+
+def _decode_op(x, pool, n_ep, udp):
+    """One drawn integer -> one operation (mixed-radix digits).  One draw per operation keeps generation
+    an order of magnitude cheaper than nested strategies; the *decoded* list is the case."""
+    kinds = _KINDS if udp else _KINDS_DOUBLES
+    x, k = divmod(x, len(kinds))
+    kind = kinds[k]
+    if kind in ("fwd", "del"):
+        x, i = divmod(x, len(pool))
+        x, j = divmod(x, len(pool))
+        return [kind, pool[i], pool[j]]
+    if kind in ("sink", "src"):
+        x, i = divmod(x, len(pool))
+        x, h = divmod(x, len(_HANDLES))
+        return [kind, pool[i], _HANDLES[h]]
+    if kind == "recv":
+        x, i = divmod(x, len(pool))
+        x, m = divmod(x, len(_MODES))
+        return [kind, pool[i], _MODES[m]]
+    if kind == "recvruled":
+        x, i = divmod(x, 6)
+        x, m = divmod(x, len(_MODES))
+        return [kind, i, _MODES[m]]
+    if kind == "delrule":
+        return [kind, x % 6]
+    if kind in ("send", "open", "close"):
+        return [kind, pool[x % len(pool)]]
+    if kind == "spin":
+        x, k = divmod(x, 3 if udp else 4)
+        x, rows = divmod(x, 4)
+        feed = []
+        for _ in range(rows):
+            row = []
+            for _ in range(n_ep):
+                x, m = divmod(x, len(_MODES))
+                row.append(_MODES[m])
+            feed.append(row)
+        return [kind, k, feed]
+    return [kind]
+
 
 @st.composite
 def histories(draw, udp=False):
@@ -805,38 +867,19 @@ def histories(draw, udp=False):
     pool = valid * 4 + [UNKNOWN]
     if n_ep < 4 and not udp:
         pool.append(EP_NAMES[n_ep])          # a well-formed name that does not exist on this hub
-    name = st.sampled_from(pool)
-    handle = st.sampled_from([0, 1, 2] * 4 + [None])
-    mode = st.sampled_from(["msg", "msg", "msg", "none", "none", "empty"])
-    small = st.integers(0, 5)
-    feed = st.lists(st.lists(mode, min_size=n_ep, max_size=n_ep), min_size=0, max_size=3)
-    weighted = [
-        (5, st.tuples(name, name).map(lambda t: ["fwd", t[0], t[1]])),
-        (1, st.tuples(name, name).map(lambda t: ["del", t[0], t[1]])),
-        (3, small.map(lambda i: ["delrule", i])),
-        (3, st.tuples(name, handle).map(lambda t: ["sink", t[0], t[1]])),
-        (2, st.tuples(name, handle).map(lambda t: ["src", t[0], t[1]])),
-        (3, st.tuples(name, mode).map(lambda t: ["recv", t[0], t[1]])),
-        (5, st.tuples(small, mode).map(lambda t: ["recvruled", t[0], t[1]])),
-        (1, name.map(lambda n: ["send", n])),
-        (2, st.tuples(st.integers(0, 2 if udp else 3), feed).map(lambda t: ["spin", t[0], t[1]])),
-        (1, name.map(lambda n: ["open", n])),
-    ]
-    if not udp:
-        weighted += [(1, name.map(lambda n: ["close", n])), (1, st.sampled_from([["openall"], ["closeall"]]))]
-    alts = []
-    for w, s_ in weighted:
-        alts += [s_] * w
-    op = st.one_of(*alts)
     lo, hi = draw(st.sampled_from([(1, 5), (5, 12)] if udp else [(1, 6), (6, 16), (16, 35), (35, 60)]))
-    ops = draw(st.lists(op, min_size=lo, max_size=hi))
+    raw = draw(st.lists(st.integers(0, 2 ** _OP_BITS - 1), min_size=lo, max_size=hi))
+    ops = [_decode_op(x, pool, n_ep, udp) for x in raw]
     if udp:
         # socket cases are ~50x dearer than doubles: start most of them from a hub that already has rules
-        v = st.sampled_from(valid)
-        reg = st.one_of(st.tuples(v, v).map(lambda t: ["fwd", t[0], t[1]]),
-                        st.tuples(v, st.integers(0, 2)).map(lambda t: ["sink", t[0], t[1]]),
-                        st.tuples(v, st.integers(0, 2)).map(lambda t: ["src", t[0], t[1]]))
-        ops = draw(st.lists(reg, min_size=0, max_size=4)) + ops
+        pre = draw(st.lists(st.integers(0, 3 * 2 * 2 * 3 - 1), min_size=0, max_size=4))
+        regs = []
+        for x in pre:
+            x, t = divmod(x, 3)
+            x, i = divmod(x, 2)
+            x, j = divmod(x, 2)
+            regs.append(["fwd", valid[i], valid[j]] if t == 0 else [("sink", "src")[t - 1], valid[i], x % 3])
+        ops = regs + ops
     opens = draw(st.lists(st.sampled_from([True, True, True, False]), min_size=n_ep, max_size=n_ep))
     return {"n_ep": n_ep, "open": opens, "ops": ops}
 
@@ -855,7 +898,9 @@ def _label_history(case, flags, model, ctx):
 
 
 def c_random(case, ctx):
-    flags, model = execute(case["n_ep"], case["open"][:case["n_ep"]], case["ops"], DoubleRig())
+    # the drawn history, then the probe (ops with index >= len(case["ops"]) in a message are the probe)
+    flags, model = execute(case["n_ep"], case["open"][:case["n_ep"]], case["ops"] + probe_ops(case["n_ep"]),
+                           DoubleRig())
     _label_history(case, flags, model, ctx)
 
 
@@ -870,7 +915,8 @@ def c_udp(case, ctx):
     for op in case["ops"]:
         if op[0] in ("close", "closeall"):
             ctx.skip("UDPObject.closeCom is outside this property (ENOTCONN on Linux)")
-    flags, model = execute(case["n_ep"], case["open"][:case["n_ep"]], case["ops"], UdpRig(ctx))
+    flags, model = execute(case["n_ep"], case["open"][:case["n_ep"]], case["ops"] + probe_ops(case["n_ep"]),
+                           UdpRig(ctx))
     _label_history(case, flags, model, ctx)
 
 
@@ -880,7 +926,8 @@ CLAUSES = [
            doc="every history of length <=4 (quick) / <=5 (thorough) over the 31-operation alphabet, 2 doubles"),
     Clause("state_graph_every_op", c_state_graph, kind="enum", size=lambda tier: len(_graph()),
            case_at=_graph_case,
-           doc="every alphabet operation applied in every reachable rule-table state (shortest path replayed)"),
+           doc="every alphabet operation applied in every reachable rule-table state (shortest path replayed), "
+               "followed by a probe that makes the resulting rule table observable"),
     Clause("random_histories", c_random, RANDOM_CASES, 2000, 48000,
            doc="op-lists to depth 60, 1..4 doubles, 0..3 sinks/sources, no-data fault drawn per receive position"),
     Clause("udp_loopback", c_udp, UDP_CASES, 400, 4800,
